@@ -16,6 +16,9 @@ use rv::gen::json::JsonOpts;
 use serde::{Deserialize, Serialize};
 use serde_json::{json, Value};
 
+#[path = "c20/cli.rs"]
+mod cli;
+
 #[derive(Debug, Clone, Serialize, Deserialize)]
 enum Step {
     Frame(Value),
@@ -337,7 +340,22 @@ fn main() {
     let mut check = Check::new("C20", "exploration");
     check.assume("frames are well-formed: they parse as frames; seq/ids/timestamps/payloads arbitrary");
     check.assume("terminal sizes 20x8..200x60 (the property quantifies over frames and capacities, not over degenerate terminals)");
-    check.assume("headless CLI renderers (rip run --view) are not linkable (binary crate) and are not covered by this check");
+    check.assume("headless CLI renderers (rip run --view raw|output|metrics) are not linkable (binary crate): group `cli` drives the real `rip` binary built from the working tree (C20_RIP_BIN, default /verif/target/repo-bins/debug/rip) as a subprocess with an empty environment (PATH, HOME in scratch; stdin null) against a loopback server that implements POST /threads/ensure, POST /threads/{id}/messages and GET /sessions/{id}/events (SSE, one `data:` event per frame) and then ends the body");
+    check.assume("cli: exit code 0 is expected both when the stream stops at the first session_ended frame (render_message -> should_stop) and when the body ends without one (EventSourceError::StreamEnded => break; repo tests stream_events_reads_messages / stream_events_stops_on_stream_end): main returns Ok(()) in both cases; a non-zero exit on well-formed frames is a failure of 'consumed without a crash'");
+    check.assume("cli: metrics view output is a function of frame timestamps only (crates/rip-cli/src/metrics.rs has no clock), so it is compared byte for byte between runs like raw/output; the second run of each view re-chunks the same SSE bytes at generated positions (possibly inside a multi-byte character) - output must not depend on transport chunking");
+    check.assume("cli: raw lines are compared as JSON values (docs: newline-delimited JSON event frames), not byte for byte; output view: stdout must start with the concatenated output_text_delta texts and, when there is model text, contain nothing else but an optional final newline at session_ended (docs/04_execution/cli.md: text deltas only; tool output only if no model output); the layout of the no-model-output fallback summary is undocumented and not asserted; a CLI run that exceeds 10 s is killed and counted inconclusive");
+    let cli_wanted = match (&check.args.replay, &check.args.only) {
+        (Some(_), _) => false, // a replay may belong to another group; a missing binary then shows as inconclusive
+        (None, Some(o)) => "cli".contains(o.as_str()),
+        (None, None) => true,
+    };
+    if cli_wanted && !cli::rip_bin().is_file() {
+        println!(
+            "INCONCLUSIVE property=C20: repository binary missing ({}); run ./check C20 (rebuilds it) or set C20_RIP_BIN",
+            cli::rip_bin().display()
+        );
+        std::process::exit(2);
+    }
     let rule = "steps = frames of all 40 types (seq plan: contiguous/gaps/repeats/descending/colliding/arbitrary) interleaved with UI ops and renders; non-trivial = (seq plan not contiguous and >=2 frames) or frame capacity exceeded; distinct by case hash";
     let n = check.cases(40_000, 1_500_000);
     check.group(
@@ -354,6 +372,14 @@ fn main() {
         GroupOpts { cases: n, ..Default::default() },
         || case_strategy(400, true),
         run,
+    );
+    let n = check.cases(300, 6_000);
+    check.group(
+        "cli",
+        "frames from the fold generator (all 40 types, seq plans, streams mixed, multi-byte text; 1 in 5 with 4/8 KiB chunks) made finite (session_ended appended / none at all / wherever generated) and served as an SSE body to the real `rip run --server --headless true --view raw|output|metrics` binary, every view run twice (one chunk per frame, then a generated byte partition); oracle: no signal/panic, exit 0, identical stdout across the two runs, raw = the consumed frames as JSON lines, output = the text deltas, metrics = one JSON object at session_ended, stdout <= 4x served bytes + 64 KiB; non-trivial = (seq plan not contiguous and >=2 consumed frames) or >=2 stream ids among the consumed frames or non-ASCII text in them",
+        GroupOpts { cases: n, watchdog_s: 300, max_shrink_iters: 150, ..Default::default() },
+        cli::strategy,
+        cli::run,
     );
     check.finish();
 }
